@@ -1,7 +1,7 @@
 (* C13 — Network FIFO between a pair of processes.
    Property theorems only; model in Proto/Model.v, proofs in Proto/Proofs.v. *)
 From Ergo Require Import Common.Base Proto.Model Proto.Proofs Proto.Redial Proto.RedialProofs.
-From Ergo Require Proto.RecvLock Proto.RecvLockProofs.
+From Ergo Require Proto.RecvLock Proto.RecvLockProofs Proto.RecvFifo.
 Local Open Scope Z_scope.
 
 (* with order keeping on, the order byte derived from a process id is never 0 (0 = round robin) *)
@@ -144,3 +144,13 @@ Example C13_recv_example :
   let c := RL.run false (concat (repeat [0; 1; 2; 3; 4; 5; 6; 7] 30)%nat) (RL.init_cfg [[1; 2]; [3]; [4; 5]]%nat) in
   RL.quiescent c = true /\ RL.delivered (RL.sh c) = RL.pushed (RL.sh c) /\ length (RL.delivered (RL.sh c)) = 5%nat.
 Proof. exact RLP.recv_example. Qed.
+
+(* ... which are, for one receive queue, exactly the two premises about the CODE that C13_fifo takes as
+   Section hypotheses (pushed_in_order, one_worker_per_queue): at quiescence of every schedule what was
+   handed to the core is an interleaving of the frame lists the pooled links delivered, draining all of
+   them, each link in its own order *)
+Theorem C13_receive_queue_merges_links : forall links sched,
+  let c := RL.run false sched (RL.init_cfg links) in
+  RL.quiescent c = true -> Merge links (RL.pushed (RL.sh c)) /\ RL.delivered (RL.sh c) = RL.pushed (RL.sh c).
+Proof. exact Proto.RecvFifo.recv_queue_merges_links. Qed.
+Print Assumptions C13_receive_queue_merges_links.
